@@ -303,6 +303,10 @@ func (t *Task) runWithLocking() {
 
 	// enter executing state
 	t.executing = true
+	// reset executeAt to detect if task set next execution itself
+	// (done here, together with the removal from the schedule, so that a
+	// max delay armed by a later submission is not wiped)
+	t.executeAt = time.Time{}
 	t.lock.Unlock()
 
 	// wait for good timeslot regarding microtasks
@@ -377,9 +381,6 @@ func (t *Task) executeWithLocking() {
 
 		t.lock.Unlock()
 	}()
-
-	// reset executeAt to detect if task set next execution itself
-	t.executeAt = time.Time{}
 
 	// run
 	err := t.taskFn(t.ctx, t)
